@@ -1,15 +1,28 @@
 /-
-  Props/C12.lean — C12: structure edits keep content intact.
-  Split, join, lift and wrap emit structure-flagged steps whose slices carry no content; the Lean
-  monitor `isStructuralAt` is evaluated on every step the real operations emit, and these theorems say
-  that such a step, when it applies, preserves the sequence of text and leaf nodes exactly and yields
-  a valid document.  That an *approved* edit then succeeds is decided by correspondence and search
-  (with the open finding for lifting out of nested lists, DESIGN.md).  Helpers: Proofs/Respects.lean.
+  Props/C12.lean — C12: structure helpers approve only edits that keep content intact; they return
+  in-range results and never raise on in-range input.
+
+  * `structural_keeps_content`: a step that satisfies the monitor `isStructuralAt` and applies preserves
+    the sequence of text and leaf nodes exactly (and is valid whenever its payload is, C01).
+  * builders (PM/StructEdit.lean, tied exactly to the steps the real `Transform` records):
+    `join/split/lift/wrap_structural` — the built step meets the static requirements (`StructuralStep`);
+    `join/split/lift/wrap_keeps_content` — so if it applies, text and leaf nodes are exactly preserved.
+  * helpers (PM/Structure.lean, PM/Structure2.lean, tied exactly at every probed position):
+    `joinPoint/insertPoint/dropPoint/liftTarget_in_range`, and `…_never_raises` for `can_join`,
+    `join_point`, `insert_point`, `drop_point`, `lift_target`, `can_split`, `can_change_type`,
+    `find_wrapping` on valid documents, each with its exact guard.
+  That an *approved* edit then succeeds is decided by correspondence and search (open findings: lifting
+  out of nested lists; marks the wrapper disallows; and `can_join` does not look at `check_join`'s
+  `compatible_content`, see the report of this work package).
+  Helpers: Proofs/Respects.lean, Proofs/StructEdit.lean, Proofs/Structure2.lean.
 -/
 import PM.Monitor
 import Proofs.StepToks
 import Proofs.Respects
 import Props.C01
+import Proofs.StructEdit
+import Proofs.Structure2
+import Props.C18
 namespace PM.C12
 open PM
 
@@ -95,5 +108,458 @@ theorem structural_keeps_content (S : Schema) (doc doc' : Node) (st : Step)
 theorem structural_valid (S : Schema) (doc doc' : Node) (st : Step) (hd : C01.Valid S doc)
     (hp : C01.PayloadValid S doc st) (h : S.apply st doc = .ok doc') : C01.Valid S doc' :=
   C01.apply_valid S st doc doc' hd hp h
+
+/-! ### the four builders (PM/StructEdit.lean) emit structure-only steps -/
+
+/-- the static requirements of `structural_keeps_content` on a step: structure flag set, slice made of
+    open/close tokens only, positions ordered (`isStructuralAt`, which does not look at the document),
+    and for a replace-around step a well-formed slice with `insert ≤ size` -/
+def StructuralStep (st : Step) : Prop :=
+  (∀ doc, isStructuralAt doc st = true) ∧
+  ∀ f t gf gt sl i b, st = .replaceAround f t gf gt sl i b → sl.wf = true ∧ (i : Int) ≤ sl.size
+
+/-- the document-dependent part of the structure guard (`content_between` finds nothing in the replaced
+    ranges) is implied by "the step applies": `structural_keeps_content` needs nothing else -/
+theorem structuralStep_keeps_content (S : Schema) (doc doc' : Node) (st : Step) (hs : StructuralStep st)
+    (h : S.apply st doc = .ok doc') :
+    (ftoks doc'.kids).filter Tok.isContent = (ftoks doc.kids).filter Tok.isContent :=
+  structural_keeps_content S doc doc' st (hs.1 doc) hs.2 h
+
+/-- **join** builds a structure-only step -/
+theorem join_structural (pos depth : Nat) (st : Step) (h : joinStep pos depth = .ok st) :
+    StructuralStep st := by
+  unfold joinStep at h
+  split at h
+  · simp at h
+  · simp only [Except.ok.injEq] at h
+    subst h
+    refine ⟨fun doc => ?_, fun f t gf gt sl i b e => by simp at e⟩
+    simp only [isStructuralAt, isStructural, sliceToks'_empty, structuralOnly, List.all_nil, Bool.and_self,
+      Bool.true_and, decide_eq_true_eq]
+    omega
+
+/-- **split** builds a structure-only step (two copies of the nest of ancestors, open by `depth` on both
+    sides); the slice is well-formed -/
+theorem split_structural (doc : Node) (pos depth : Nat) (st : Step) (hdoc : doc.isLeaf = false)
+    (h : splitStep doc pos depth = .ok st) :
+    StructuralStep st ∧ ∃ sl, st = .replace pos pos sl true ∧ sl.wf = true ∧ sl.size = 2 * (depth : Int) := by
+  unfold splitStep at h
+  cases hr : doc.resolve pos with
+  | none => simp [hr] at h
+  | some r =>
+    simp only [hr] at h
+    cases hn : splitNodes r depth with
+    | none => simp [hn] at h
+    | some nodes =>
+      simp only [hn, Except.ok.injEq] at h
+      subst h
+      obtain ⟨hlen, hel⟩ := splitNodesFrom_spec hr hdoc depth _ nodes hn
+      have N := nestOut_nest nodes hel
+      rw [hlen] at N
+      refine ⟨⟨fun d => ?_, fun f t gf gt sl i b e => by simp at e⟩, _, rfl, nests_wf N N, ?_⟩
+      · simp only [isStructuralAt, isStructural, sliceToks'_nests N N, Bool.and_self, Bool.true_and,
+          decide_eq_true_eq]
+        exact Nat.le_refl _
+      · rw [nests_size N N]; omega
+
+/-- **lift** builds a structure-only replace-around step: `before` and `after` are nests of empty copies
+    of the ancestors that have to be split, the gap is the range, `insert` lies between them.
+    (`a ≤ b`: the range's `from` is not after its `to`, as for every `NodeRange` of `block_range`.) -/
+theorem lift_structural (doc : Node) (a b depth target : Nat) (st : Step) (hab : a ≤ b)
+    (h : liftStep doc a b depth target = .ok st) : StructuralStep st := by
+  unfold liftStep at h
+  cases hf : doc.resolve a with
+  | none => simp [hf] at h
+  | some f =>
+    cases ht : doc.resolve b with
+    | none => simp [hf, ht] at h
+    | some t =>
+      simp only [hf, ht] at h
+      unfold liftStepR at h
+      cases hb : f.before (depth + 1) with
+      | none => simp [hb] at h
+      | some gs =>
+        cases hafter : t.after (depth + 1) with
+        | none => simp [hb, hafter] at h
+        | some ge =>
+          simp only [hb, hafter] at h
+          have Rf := resolve_resolved hf
+          have Rt := resolve_resolved ht
+          have h1 := Rf.before_le depth gs hb
+          have h2 := Rt.le_after depth ge hafter
+          have hdf : depth ≤ f.depth := by
+            unfold RPos.before at hb
+            simp only [Nat.add_eq_zero_iff, Nat.succ_ne_self, and_false, if_false] at hb
+            split at hb
+            · omega
+            · split at hb
+              · omega
+              · simp at hb
+          have hdt : depth ≤ t.depth := by
+            unfold RPos.after at hafter
+            simp only [Nat.add_eq_zero_iff, Nat.succ_ne_self, and_false, if_false] at hafter
+            split at hafter
+            · omega
+            · split at hafter
+              · omega
+              · simp at hafter
+          have NL := liftSide_nest f.node (fun d => decide (0 < f.index d)) target (depth - target) [] 0 0 false
+            (fun d h1 h2 => by
+              obtain ⟨k, rfl⟩ : ∃ k, d = k + 1 := ⟨d - 1, by omega⟩
+              obtain ⟨ty, at_, m, kids, e⟩ := resolve_node_elem hf k (by omega)
+              rw [e]; rfl) .nil
+          have NR := liftSide_nest t.node (fun d => decide (t.afterT (d + 1) < t.end_ d)) target
+            (depth - target) [] 0 0 false
+            (fun d h1 h2 => by
+              obtain ⟨k, rfl⟩ : ∃ k, d = k + 1 := ⟨d - 1, by omega⟩
+              obtain ⟨ty, at_, m, kids, e⟩ := resolve_node_elem ht k (by omega)
+              rw [e]; rfl) .nil
+          generalize liftSide f.node (fun d => decide (0 < f.index d)) target (depth - target) [] 0 0 false = L at h NL
+          generalize liftSide t.node (fun d => decide (t.afterT (d + 1) < t.end_ d)) target
+            (depth - target) [] 0 0 false = R at h NR
+          obtain ⟨before, os, ml⟩ := L
+          obtain ⟨after, oe, mr⟩ := R
+          simp only [Except.ok.injEq] at h
+          subst h
+          simp only at NL NR
+          refine ⟨fun d => ?_, fun f' t' gf gt sl i b' e => ?_⟩
+          · simp only [isStructuralAt, isStructural, sliceToks'_nests NL NR, Bool.and_self, Bool.true_and,
+              Bool.and_eq_true, decide_eq_true_eq]
+            omega
+          · simp only [Step.replaceAround.injEq] at e
+            obtain ⟨_, _, _, _, rfl, rfl, _⟩ := e
+            refine ⟨nests_wf NL NR, ?_⟩
+            rw [nests_size NL NR, NL.fsize]
+            omega
+
+/-- **wrap** builds a structure-only replace-around step: the slice is the nest of the (non-leaf)
+    wrappers, closed on both sides, the range sits in its innermost node -/
+theorem wrap_structural (S : Schema) (doc : Node) (a b depth : Nat) (ws : List (TypeId × Attrs)) (st : Step)
+    (hab : a ≤ b) (hl : ∀ w ∈ ws, (S.nodeType w.1).isLeaf = false)
+    (h : wrapStep S doc a b depth ws = .ok st) : StructuralStep st := by
+  unfold wrapStep at h
+  cases hf : doc.resolve a with
+  | none => simp [hf] at h
+  | some f =>
+    cases ht : doc.resolve b with
+    | none => simp [hf, ht] at h
+    | some t =>
+      simp only [hf, ht] at h
+      unfold wrapStepR at h
+      cases hc : wrapContent S ws with
+      | error e => simp [hc] at h
+      | ok content =>
+        cases hb : f.before (depth + 1) with
+        | none => simp [hc, hb] at h
+        | some gs =>
+          cases hafter : t.after (depth + 1) with
+          | none => simp [hc, hb, hafter] at h
+          | some ge =>
+            simp only [hc, hb, hafter, Except.ok.injEq] at h
+            subst h
+            have h1 := (resolve_resolved hf).before_le depth gs hb
+            have h2 := (resolve_resolved ht).le_after depth ge hafter
+            have N := wrapContent_nest S ws content hl hc
+            have e0 : content = fappend content [] := by simp [fappend]
+            refine ⟨fun d => ?_, fun f' t' gf gt sl i b' e => ?_⟩
+            · have hs : structuralOnly (sliceToks' ⟨content, 0, 0⟩) = true := by
+                rw [e0]; exact sliceToks'_nests N .nil 0 0
+              simp only [isStructuralAt, isStructural, hs, Bool.and_self, Bool.true_and,
+                Bool.and_eq_true, decide_eq_true_eq]
+              omega
+            · simp only [Step.replaceAround.injEq] at e
+              obtain ⟨_, _, _, _, rfl, rfl, _⟩ := e
+              simp only [Slice.wf, Slice.size, N.fsize, Nat.zero_le, decide_true, Bool.and_self, true_and]
+              omega
+
+/-! ### corollaries: if the built step applies, the text and leaf nodes are exactly preserved -/
+
+theorem join_keeps_content (S : Schema) (doc doc' : Node) (pos depth : Nat) (st : Step)
+    (hb : joinStep pos depth = .ok st) (h : S.apply st doc = .ok doc') :
+    (ftoks doc'.kids).filter Tok.isContent = (ftoks doc.kids).filter Tok.isContent :=
+  structuralStep_keeps_content S doc doc' st (join_structural pos depth st hb) h
+
+/-- a replace step only applies to an element node -/
+theorem apply_replace_doc_elem (S : Schema) (doc doc' : Node) (f t : Nat) (sl : Slice) (b : Bool)
+    (h : S.apply (.replace f t sl b) doc = .ok doc') : doc.isLeaf = false := by
+  cases doc with
+  | elem => rfl
+  | text s m =>
+    exfalso
+    unfold Schema.apply at h
+    simp only [Schema.fromReplace, Schema.replace] at h
+    repeat' split at h
+    all_goals simp at h
+  | leaf ty a m =>
+    exfalso
+    unfold Schema.apply at h
+    simp only [Schema.fromReplace, Schema.replace] at h
+    repeat' split at h
+    all_goals simp at h
+
+theorem split_keeps_content (S : Schema) (doc doc' : Node) (pos depth : Nat) (st : Step)
+    (hb : splitStep doc pos depth = .ok st) (h : S.apply st doc = .ok doc') :
+    (ftoks doc'.kids).filter Tok.isContent = (ftoks doc.kids).filter Tok.isContent := by
+  have hdoc : doc.isLeaf = false := by
+    have hb' := hb
+    unfold splitStep at hb'
+    cases hr : doc.resolve pos with
+    | none => simp [hr] at hb'
+    | some r =>
+      cases hn : splitNodes r depth with
+      | none => simp [hr, hn] at hb'
+      | some nodes =>
+        simp only [hr, hn, Except.ok.injEq] at hb'
+        subst hb'
+        exact apply_replace_doc_elem S doc doc' _ _ _ _ h
+  exact structuralStep_keeps_content S doc doc' st (split_structural doc pos depth st hdoc hb).1 h
+
+theorem lift_keeps_content (S : Schema) (doc doc' : Node) (a b depth target : Nat) (st : Step) (hab : a ≤ b)
+    (hb : liftStep doc a b depth target = .ok st) (h : S.apply st doc = .ok doc') :
+    (ftoks doc'.kids).filter Tok.isContent = (ftoks doc.kids).filter Tok.isContent :=
+  structuralStep_keeps_content S doc doc' st (lift_structural doc a b depth target st hab hb) h
+
+theorem wrap_keeps_content (S : Schema) (doc doc' : Node) (a b depth : Nat) (ws : List (TypeId × Attrs))
+    (st : Step) (hab : a ≤ b) (hl : ∀ w ∈ ws, (S.nodeType w.1).isLeaf = false)
+    (hb : wrapStep S doc a b depth ws = .ok st) (h : S.apply st doc = .ok doc') :
+    (ftoks doc'.kids).filter Tok.isContent = (ftoks doc.kids).filter Tok.isContent :=
+  structuralStep_keeps_content S doc doc' st (wrap_structural S doc a b depth ws st hab hl hb) h
+
+/-! ### the helpers (PM/Structure.lean, PM/Structure2.lean) return in-range results -/
+
+/-- a join point lies in the document -/
+theorem joinPoint_in_range (S : Schema) (doc : Node) (pos : Nat) (dir : Int) (p : Nat)
+    (h : joinPoint S doc pos dir = some (some p)) : p ≤ fsize doc.kids := by
+  unfold joinPoint at h
+  cases hr : doc.resolve pos with
+  | none => simp [hr] at h
+  | some r =>
+    simp only [hr] at h
+    have R := resolve_resolved hr
+    exact joinPointLoop_le S R dir r.depth pos p R.le h
+
+/-- an insert point lies in the document -/
+theorem insertPoint_in_range (S : Schema) (doc : Node) (pos : Nat) (ty : TypeId) (p : Nat)
+    (h : insertPoint S doc pos ty = some (some p)) : p ≤ fsize doc.kids := by
+  unfold insertPoint at h
+  cases hr : doc.resolve pos with
+  | none => simp [hr] at h
+  | some r =>
+    simp only [hr] at h
+    have R := resolve_resolved hr
+    unfold insertPointR at h
+    split at h
+    · simp at h
+    · simp only [Option.some.injEq] at h
+      rw [← h, R.pos_eq]; exact R.le
+    · simp only at h
+      split at h
+      · simp at h
+      · rename_i res hfirst
+        simp only [Option.some.injEq] at h
+        subst h
+        split at hfirst
+        · exact insertLoopStart_le S R ty r.depth p hfirst
+        · simp at hfirst
+      · split at h
+        · split at h
+          · simp at h
+          · rename_i res hend
+            simp only [Option.some.injEq] at h
+            subst h
+            exact insertLoopEnd_le S R ty r.depth p hend
+          · simp at h
+        · simp at h
+
+/-- a drop point lies in the document -/
+theorem dropPoint_in_range (S : Schema) (doc : Node) (pos : Nat) (sl : Slice) (p : Nat)
+    (h : dropPoint S doc pos sl = some (some p)) : p ≤ fsize doc.kids := by
+  unfold dropPoint at h
+  cases hr : doc.resolve pos with
+  | none => simp [hr] at h
+  | some r =>
+    simp only [hr] at h
+    have R := resolve_resolved hr
+    unfold dropPointR at h
+    split at h
+    · simp only [Option.some.injEq] at h
+      rw [← h, R.pos_eq]; exact R.le
+    · split at h
+      · simp at h
+      · rename_i content _
+        split at h
+        · simp at h
+        · rename_i p' hp'
+          simp only [Option.some.injEq] at h
+          subst h
+          exact dropLoop_le S R content false _ _ hp'
+        · split at h
+          · exact dropLoop_le S R content true _ _ h
+          · simp at h
+
+/-- a lift target is a depth strictly above the range's depth, which is a depth of both ends -/
+theorem liftTarget_in_range (S : Schema) (doc : Node) (f t depth d : Nat) (rf rt : RPos)
+    (hf : doc.resolve f = some rf) (ht : doc.resolve t = some rt)
+    (h : liftTarget S doc f t depth = some (some d)) : d < depth ∧ depth ≤ rf.depth ∧ depth ≤ rt.depth := by
+  obtain ⟨h1, h2, h3, _⟩ := C18.liftTarget_not_across_isolating S doc f t depth d rf rt hf ht h
+  exact ⟨h1, h2, h3⟩
+
+/-! ### the helpers never raise on in-range input of a valid document -/
+
+/-- the position does not fall between the two halves of a surrogate pair (Python cannot cut a `str`
+    there: `node_before` / `node_after` raise `UnicodeDecodeError`) -/
+def pairAligned (doc : Node) (pos : Nat) : Bool :=
+  match doc.resolve pos with
+  | some r => r.pairOk
+  | none => true
+
+/-- `can_join` answers (`None`, `True` or `False`) at every pair-aligned position of a valid document -/
+theorem canJoin_never_raises (S : Schema) (doc : Node) (pos : Nat) (hv : C01.Valid S doc)
+    (hpos : pos ≤ fsize doc.kids) (hal : pairAligned doc pos = true) : canJoin S doc pos ≠ none := by
+  obtain ⟨r, hr⟩ := resolve_isSome doc pos hpos
+  obtain ⟨v, h⟩ := canJoinR_isSome S (resolve_resolved hr) hv (by simpa [pairAligned, hr] using hal)
+  simp [canJoin, hr, h]
+
+theorem joinPoint_never_raises (S : Schema) (doc : Node) (pos : Nat) (dir : Int) (hv : C01.Valid S doc)
+    (hpos : pos ≤ fsize doc.kids) (hal : pairAligned doc pos = true) : joinPoint S doc pos dir ≠ none := by
+  obtain ⟨r, hr⟩ := resolve_isSome doc pos hpos
+  obtain ⟨v, h⟩ := joinPointLoop_isSome S (resolve_resolved hr) hv (by simpa [pairAligned, hr] using hal)
+    dir r.depth pos (Nat.le_refl _)
+  simp [joinPoint, hr, h]
+
+theorem insertPoint_never_raises (S : Schema) (doc : Node) (pos : Nat) (ty : TypeId) (hv : C01.Valid S doc)
+    (hpos : pos ≤ fsize doc.kids) : insertPoint S doc pos ty ≠ none := by
+  obtain ⟨r, hr⟩ := resolve_isSome doc pos hpos
+  obtain ⟨v, h⟩ := insertPointR_isSome S (resolve_resolved hr) hv ty
+  simp [insertPoint, hr, h]
+
+/-- `drop_point` needs the slice's `open_start` to be backed by its content (the `assert` on `first_child`) -/
+theorem dropPoint_never_raises (S : Schema) (doc : Node) (pos : Nat) (sl : Slice) (hv : C01.Valid S doc)
+    (hpos : pos ≤ fsize doc.kids) (hopen : sl.openStart ≤ spineL sl.content) : dropPoint S doc pos sl ≠ none := by
+  obtain ⟨r, hr⟩ := resolve_isSome doc pos hpos
+  obtain ⟨v, h⟩ := dropPointR_isSome S (resolve_resolved hr) hv sl hopen
+  simp [dropPoint, hr, h]
+
+/-- `lift_target` on a range whose depth is a depth of both ends -/
+theorem liftTarget_never_raises (S : Schema) (doc : Node) (f t depth : Nat) (rf rt : RPos) (hv : C01.Valid S doc)
+    (hf : doc.resolve f = some rf) (ht : doc.resolve t = some rt) (hdf : depth ≤ rf.depth) (hdt : depth ≤ rt.depth) :
+    liftTarget S doc f t depth ≠ none := by
+  obtain ⟨v, h⟩ := liftLoop_isSome S (resolve_resolved hf) hv rt depth
+    (cutByIndex (rf.node depth).kids (rf.index depth) (rt.indexAfter depth)) depth hdf
+  simp only [liftTarget, hf, ht, liftTargetR]
+  rw [if_neg (by simp; omega)]
+  simp [h]
+
+/-- `can_split` with a depth of at least 1 (`depth = 0` reaches `pos_.node(pos_.depth + 1)`: IndexError) -/
+theorem canSplit_never_raises (S : Schema) (doc : Node) (pos depth : Nat) (hv : C01.Valid S doc)
+    (hpos : pos ≤ fsize doc.kids) (hd : 1 ≤ depth) : canSplit S doc pos depth ≠ none := by
+  obtain ⟨r, hr⟩ := resolve_isSome doc pos hpos
+  obtain ⟨v, h⟩ := canSplitR_isSome S (resolve_resolved hr) hv depth hd
+  simp [canSplit, hr, h]
+
+theorem canChangeType_never_raises (S : Schema) (doc : Node) (pos : Nat) (ty : TypeId) (hv : C01.Valid S doc)
+    (hpos : pos ≤ fsize doc.kids) : canChangeType S doc pos ty ≠ none := by
+  obtain ⟨r, hr⟩ := resolve_isSome doc pos hpos
+  have R := resolve_resolved hr
+  obtain ⟨v, h⟩ := nodeCanReplaceWith_isSome S r.parent (path_valid S R hv r.depth (Nat.le_refl _))
+    (r.index r.depth) (r.index r.depth + 1) ty (R.index_le r.depth (Nat.le_refl _))
+  simp [canChangeType, hr, h]
+
+/-- `find_wrapping` on a node range as `block_range` builds them: `from ≤ to`, `to` inside the node at the
+    range's depth (`to ≤ from.end(depth)`), and `from` in front of a child of that node -/
+theorem findWrapping_never_raises (S : Schema) (doc : Node) (a b depth : Nat) (ty : TypeId) (rf rt : RPos)
+    (hv : C01.Valid S doc) (hf : doc.resolve a = some rf) (ht : doc.resolve b = some rt)
+    (hab : a ≤ b) (hdf : depth ≤ rf.depth) (hdt : depth ≤ rt.depth) (hend : b ≤ rf.end_ depth)
+    (hchild : rf.index depth < (rf.node depth).kids.length) :
+    findWrappingRange S doc a b depth ty ≠ none := by
+  have Rf := resolve_resolved hf
+  have Rt := resolve_resolved ht
+  have pf := Rf.pos_in depth hdf
+  have pt := Rt.pos_in depth hdt
+  have same := (same_ancestors Rf Rt depth b hdf hdt (by omega) hend pt.1 pt.2 depth (Nat.le_refl _)).1
+  obtain ⟨v, h⟩ := findWrappingR_isSome S Rf hv depth ty hdf hdt hchild
+    (by rw [same]; exact Rt.indexAfter_le depth hdt)
+  simp [findWrappingRange, hf, ht, h]
+
+/-! ### concrete instances of the hypotheses: `doc(blockquote(p("a"), p("b")))` in a schema
+    `doc: block+`, `blockquote: block+`, `paragraph: text*` -/
+
+private def exDoc : Node :=
+  .elem 0 [] [] [.elem 1 [] [] [.elem 2 [] [] [.text [97] []], .elem 2 [] [] [.text [98] []]]]
+
+/-- `doc(blockquote(p("a")), blockquote(p("b")))` -/
+private def exDoc2 : Node :=
+  .elem 0 [] [] [.elem 1 [] [] [.elem 2 [] [] [.text [97] []]], .elem 1 [] [] [.elem 2 [] [] [.text [98] []]]]
+
+private def exNT (name : String) (text inlineContent : Bool) (dfa : Array DfaState) : NodeType :=
+  { name := name, isText := text, isInline := text, isLeaf := text, isAtom := text, inlineContent := inlineContent,
+    isolating := false, defining := false, code := false, dfa := dfa, markSet := none, attrs := [] }
+
+private def blocksDfa : Array DfaState := #[⟨false, [(1, 1), (2, 1)]⟩, ⟨true, [(1, 1), (2, 1)]⟩]
+
+private def exSchema : Schema :=
+  { nodes := #[exNT "doc" false false blocksDfa, exNT "blockquote" false false blocksDfa,
+      exNT "paragraph" false true #[⟨true, [(3, 0)]⟩], exNT "text" true false #[⟨true, []⟩]],
+    marks := #[], top := 0, textTy := 3 }
+
+example : C01.Valid exSchema exDoc := by rfl
+example : C01.Valid exSchema exDoc2 := by rfl
+example : pairAligned exDoc 3 = true := by rfl
+
+/-- lifting the second paragraph out of the blockquote: approved (target depth 0), the blockquote is split
+    before it -/
+example : liftTarget exSchema exDoc 6 7 1 = some (some 0) := by rfl
+example : liftStep exDoc 6 7 1 0 = .ok (.replaceAround 4 8 4 7 ⟨[.elem 1 [] [] []], 1, 0⟩ 1 true) := by rfl
+/-- splitting inside the first paragraph, two levels deep -/
+example : canSplit exSchema exDoc 3 2 = some true := by rfl
+example : splitStep exDoc 3 2 = .ok (.replace 3 3
+    ⟨[.elem 1 [] [] [.elem 2 [] [] []], .elem 1 [] [] [.elem 2 [] [] []]], 2, 2⟩ true) := by rfl
+/-- joining the two blockquotes of `exDoc2` -/
+example : canJoin exSchema exDoc2 5 = some (some true) := by rfl
+example : joinPoint exSchema exDoc2 7 (-1) = some (some 5) := by rfl
+example : joinStep 5 1 = .ok (.replace 4 6 Slice.empty true) := by rfl
+/-- wrapping the second paragraph in a blockquote -/
+example : findWrappingRange exSchema exDoc 5 6 1 1 = some (some [1]) := by rfl
+example : wrapStep exSchema exDoc 5 6 1 [(1, [])] =
+    .ok (.replaceAround 4 7 4 7 ⟨[.elem 1 [] [] []], 0, 0⟩ 1 true) := by rfl
+/-- a blockquote cannot go into the paragraph at its start, but it fits in front of it -/
+example : insertPoint exSchema exDoc 2 1 = some (some 1) := by rfl
+example : dropPoint exSchema exDoc 2 ⟨[.elem 1 [] [] [.elem 2 [] [] []]], 0, 0⟩ = some (some 1) := by rfl
+/-- the guards are needed: `can_split` with depth 0 raises, and so does `can_join` one past the end -/
+example : canSplit exSchema exDoc 3 0 = none := by rfl
+example : canJoin exSchema exDoc 9 = none := by rfl
+
+/-! ### not stated: `canJoin_join_applies`
+
+    The stretch statement
+      `canJoin S doc pos = some (some true) → joinStep pos 1 = .ok st → ∃ doc', S.apply st doc = .ok doc'`
+    is **false** for arbitrary schemas, for the model and for the code alike: `joinable` asks
+    `a.can_append(b)` (does `b`'s content continue `a`'s), the join itself asks `check_join`
+    (`b.type.compatible_content(a.type)`: do the two *start* states share an edge).  In the schema
+    `doc: A B*`, `A: x y*`, `B: y+` and the document `doc(A(x), B(y))`, `can_join(doc, 3)` and `join_point(doc, 3)`
+    approve and `Transform.join(3)` raises `TransformError("Cannot join B onto A")`.  A conditional version
+    needs `compatibleContent`, `TextStable` (the join merges adjacent text nodes, `can_append` does not) and the
+    success characterisation of `replace`; it was not attempted. -/
+
+private def cexNT (name : String) (leaf : Bool) (dfa : Array DfaState) : NodeType :=
+  { name := name, isText := false, isInline := false, isLeaf := leaf, isAtom := leaf, inlineContent := false,
+    isolating := false, defining := false, code := false, dfa := dfa, markSet := none, attrs := [] }
+
+private def cexSchema : Schema :=
+  { nodes := #[cexNT "doc" false #[⟨false, [(1, 1)]⟩, ⟨true, [(2, 1)]⟩],
+      cexNT "A" false #[⟨false, [(3, 1)]⟩, ⟨true, [(4, 1)]⟩],
+      cexNT "B" false #[⟨false, [(4, 1)]⟩, ⟨true, [(4, 1)]⟩],
+      cexNT "x" true #[⟨true, []⟩], cexNT "y" true #[⟨true, []⟩],
+      { cexNT "text" true #[⟨true, []⟩] with isText := true, isInline := true }],
+    marks := #[], top := 0, textTy := 5 }
+
+private def cexDoc : Node := .elem 0 [] [] [.elem 1 [] [] [.leaf 3 [] []], .elem 2 [] [] [.leaf 4 [] []]]
+
+example : C01.Valid cexSchema cexDoc := by rfl
+/-- the helper approves … -/
+example : canJoin cexSchema cexDoc 3 = some (some true) := by rfl
+example : joinPoint cexSchema cexDoc 3 (-1) = some (some 3) := by rfl
+/-- … and the join is refused by `check_join` -/
+example : cexSchema.compatibleContent 2 1 = false := by rfl
 
 end PM.C12
